@@ -105,7 +105,11 @@ class Hist1DAdapter(Adapter):
         try:
             if action == "NewEmpty":
                 L, keep = args
-                if self.spelling % 2 == 0:
+                if self.spelling % 4 == 2:
+                    # an empty histogram obtained as the emptied copy of a filled one over the same bins
+                    tmpl = self.physt.h1([self.pe.x(L[0][0]), self.pe.x(L[-1][0])], self._bins_arg(L), keep_missed=keep)
+                    real = tmpl.copy(include_frequencies=False)
+                elif self.spelling % 2 == 0:
                     real = self.Histogram1D(self._bins_arg(L), keep_missed=keep)
                 else:
                     real = self.physt.h1(None, self._bins_arg(L), keep_missed=keep)
